@@ -20,6 +20,10 @@ class Labels(list):
     (both happen); such traces are judged by the Python monitors only"""
     race = False
 
+    def __init__(self, *a):
+        list.__init__(self, *a)
+        self.spurious = []      # events that failed without a raising callback
+
 
 def labels(case, log):
     """-> list of label tuples (kind, …) in the order of the log"""
@@ -33,13 +37,21 @@ def labels(case, log):
     pending = {}            # tag -> chain in which it is being processed
     chain_of = {}
     cancelled_chains = set()
+    failed_ever = set()
     while i < n:
         it = log[i]
         k = it[0]
         if k == 'evstart':
             chain_of[it[1]] = it[3]
+        if (k == 'stage' and it[2] == 'on_exception' and it[1] not in pending
+                and chain_of.get(it[1]) not in cancelled_chains) or \
+                (k == 'evend' and it[3] == 1 and it[1] not in pending and it[1] not in failed_ever):
+            # the event fails although none of its callbacks (or nested calls) raised: an exception of the library
+            if it[1] not in out.spurious:
+                out.spurious.append(it[1])
         if k in ('stage', 'evend') and it[1] in pending:
             del pending[it[1]]
+            failed_ever.add(it[1])
             out.append(('fail', it[1]))
             if chain_of.get(it[1]) in cancelled_chains:
                 # an exception (of a handler, or of a nested call) reaches an event of an already cancelled
@@ -50,6 +62,7 @@ def labels(case, log):
         if k == 'cancel':
             for tg in [tg for tg in pending if chain_of.get(tg) == it[1]]:
                 del pending[tg]
+                failed_ever.add(tg)
                 out.race = True
         if k == 'begin':
             out.append(('begin', it[1], it[2], it[3]))
@@ -72,6 +85,7 @@ def labels(case, log):
                 cancelled_chains.add(log[j][1])
                 for tg in [tg for tg in pending if chain_of.get(tg) == log[j][1]]:
                     del pending[tg]
+                    failed_ever.add(tg)
                     out.race = True
                 j += 1
             out.append(('decide', it[1] if it[1] is not None else 10 ** 6, cs))
@@ -306,7 +320,63 @@ def mon_cleanup(case, run):
     return bad
 
 
+def overlapping_models(log, tag):
+    """models whose events were being processed while event `tag` was"""
+    inside = False
+    open_m = {}
+    seen = set()
+    for it in log:
+        if it[0] == 'evstart':
+            if it[1] == tag:
+                inside = True
+                seen |= set(open_m.values())
+            else:
+                open_m[it[1]] = it[2]
+                if inside:
+                    seen.add(it[2])
+        elif it[0] == 'evend':
+            if it[1] == tag:
+                inside = False
+            open_m.pop(it[1], None)
+    return seen
+
+
+def mon_unexpected(case, log, labs):
+    """the programs never provoke library exceptions: an event that fails although none of its callbacks / nested calls
+    raised (`labs.spurious`), or a trigger call raising anything but the scripted UserExc / the CancelledError of its
+    cancelled task, is a failure of the machine"""
+    bad = []
+    model_of = {it[1]: it[3] for it in log if it[0] == 'begin'}
+    tags = list(getattr(labs, 'spurious', []))
+    kinds = {}
+    for it in log:
+        if it[0] == 'raised' and it[2] not in ('UserExc', 'Cancelled'):
+            kinds[it[1]] = it[2]
+            if it[1] not in tags:
+                tags.append(it[1])
+    for t in tags:
+        kind = kinds.get(t, 'an exception (handled by on_exception / replaced later)')
+        others = overlapping_models(log, t) - {model_of.get(t)}
+        if case['hsm'] and others and kinds.get(t, 'ValueError') == 'ValueError':
+            bad.append(('hsm.concurrent_scope', 'event %s (model %s) failed with %s while an event of model(s) %s was being '
+                        'processed on the same HierarchicalAsyncMachine' % (t, model_of.get(t), kind, sorted(others))))
+        elif case['hsm'] and kinds.get(t, 'ValueError') == 'ValueError':
+            # two (protected / not yet cancelled) transitions of ONE model of a hierarchical machine: the later one
+            # resolves its exit/enter sets against a state the earlier one has already changed and raises ValueError —
+            # concurrent transitions on one model are what cancellation exists to prevent; not a clause of the
+            # statement, not judged (inclusion skipped, counted)
+            continue
+        else:
+            bad.append(('call.unexpected_exception', 'event %s failed with %s' % (t, kind)))
+    return bad
+
+
+def hsm_value_error(case, log, labs):
+    return bool(case['hsm']) and (bool(getattr(labs, 'spurious', [])) or
+                                  any(it[0] == 'raised' and it[2] == 'ValueError' for it in log))
+
+
 def monitors(case, run):
     if run.hang is not None:
         return [('hang', run.hang)]
-    return mon_queue(case, run.log) + mon_cancel(case, run.log) + mon_cleanup(case, run)
+    return mon_queue(case, run.log) + mon_cancel(case, run.log) + mon_cleanup(case, run) + mon_unexpected(case, run.log, getattr(run, 'labels', None))
